@@ -158,6 +158,9 @@ type Peer struct {
 	reqChokeDropped map[Req]int // requests dropped by a choke from the SUT (non-fast)
 	served          int
 	chokeMark       *simnet.Mark // set when we sent choke: consumed-by-SUT tracking
+	lastChokeMark   *simnet.Mark // the latest choke we ever sent (kept across unchokes)
+	reqAmbig        map[Req]bool // outstanding requests that may predate the SUT's handling of that choke
+	chokePending    bool         // a choke is queued for writing, its mark not placed yet
 	everUnchoked    bool
 	sutExt          map[string]any // SUT's extension handshake
 	sutMetaID       uint8
@@ -610,13 +613,23 @@ func (p *Peer) SetChoke(choke bool) {
 	}
 	p.mu.Unlock()
 	if choke {
+		p.mu.Lock()
+		p.chokePending = true
+		p.mu.Unlock()
 		p.Send(EncSimple(MsgChoke))
-		if p.pair != nil {
+		p.sendFn(func() { // runs in the writer, after the choke bytes are on the wire
+			if p.pair == nil {
+				return
+			}
 			m := p.pair.MarkWritten(p.side)
 			p.mu.Lock()
-			p.chokeMark = m
+			if p.amChoking {
+				p.chokeMark = m
+			}
+			p.lastChokeMark = m
+			p.chokePending = false
 			p.mu.Unlock()
-		}
+		})
 		for _, r := range fastRejects {
 			p.Send(EncReject(r.Index, r.Begin, r.Length))
 		}
@@ -882,6 +895,12 @@ func (p *Peer) onRequest(r Req) {
 			p.violate("C02", "request.bounds", "request %v outside piece of %d bytes or longer than 16 KiB", r, ps)
 			return
 		}
+		if !p.fast() && p.staleRequestLocked() {
+			// Sent before the SUT read our latest choke: both sides drop it (BEP 3), whatever our
+			// choke state is by now. It is neither outstanding nor served.
+			simrt.Count("probe.peer.stale_request_after_choke", 1)
+			return
+		}
 		// C09: never request a piece the peer lacks
 		if !p.have.Has(int(r.Index)) {
 			p.violate("C09", "request.peer_lacks", "request %v for a piece this peer never advertised", r)
@@ -896,6 +915,8 @@ func (p *Peer) onRequest(r Req) {
 		if !p.everUnchoked {
 			p.violate("C09", "request.while_choked", "request %v although this peer never unchoked the SUT and the piece is not allowed-fast", r)
 		} else if p.chokeMark != nil {
+			// The SUT's reader may hold our choke in its buffer (and its loop in its queue)
+			// for a while: only a request long after the choke was read is judged.
 			if at, ok := p.chokeMark.Consumed(); ok && simrt.Now()-at > 3*time.Second && p.pair != nil && simrt.Now()-at > 4*p.pair.Lat+3*time.Second {
 				p.violate("C09", "request.while_choked", "request %v arrived %v after the SUT read our choke and the piece is not allowed-fast", r, simrt.Now()-at)
 			}
@@ -903,7 +924,7 @@ func (p *Peer) onRequest(r Req) {
 	}
 	// C09: one piece download per peer: all our unanswered requests belong to one piece.
 	for _, q := range p.reqIn {
-		if q.Index != r.Index {
+		if q.Index != r.Index && !p.reqAmbig[q] {
 			p.violate("C09", "request.two_pieces", "request %v while %v of another piece is still outstanding", r, q)
 			break
 		}
@@ -912,6 +933,19 @@ func (p *Peer) onRequest(r Req) {
 		simrt.Count("probe.peer.duplicate_request", 1)
 	}
 	p.reqIn = append(p.reqIn, r)
+	if !p.fast() && p.lastChokeMark != nil {
+		// Written by the SUT after its socket read returned our latest choke, but perhaps before
+		// its event loop handled that choke (then it drops this request like the older ones):
+		// served as usual, not held against a later download of another piece.
+		if at, ok := p.lastChokeMark.Consumed(); ok && simrt.Now()-at < 3*time.Second+4*p.pair.Lat {
+			if p.reqAmbig == nil {
+				p.reqAmbig = map[Req]bool{}
+			}
+			p.reqAmbig[r] = true
+		} else {
+			delete(p.reqAmbig, r)
+		}
+	}
 	p.actUpdate()
 	// C17: outstanding requests within the limit
 	if lim := p.reqLimit(); lim > 0 && len(p.reqIn) > lim {
@@ -958,6 +992,23 @@ func (p *Peer) SutCaughtUp() bool {
 	}
 	s := 1 - p.side
 	return !p.pair.Closed(s) && !p.pair.Closed(p.side) && p.pair.Consumed(s) == p.pair.BytesWritten(s)
+}
+
+// staleRequestLocked: was the message just read sent by the SUT before it consumed our latest
+// choke? Exact: the SUT's stream offset of the message end against what the SUT had written
+// when it read the choke.
+func (p *Peer) staleRequestLocked() bool {
+	if p.chokePending {
+		return true
+	}
+	m := p.lastChokeMark
+	if m == nil || p.pair == nil {
+		return false
+	}
+	if _, ok := m.Consumed(); !ok {
+		return true
+	}
+	return p.pair.Consumed(1-p.side) <= m.ReaderWrote()
 }
 
 func (p *Peer) reqLimit() int {
